@@ -7,6 +7,7 @@ import JunoModel.C11.ModelPrettyText
 import JunoModel.C11.ModelGate
 import JunoModel.C11.ModelConn
 import JunoModel.C11.ModelRegister
+import JunoModel.C11.ModelEvents
 /-!
 Line-protocol driver for the C11 model (`lake build c11drv`).
 
@@ -38,6 +39,14 @@ Requests:
   `reg <k> { <name s-token> <nparams> <isFunc 0|1> <ins: letters c (context) o (other), or -> <outs: letters e (*Error) h (http.Header) o (other), or -> }`
         -> `ok <registered>` | `err:<notFunc|paramCount|returnCount|secondNotError|thirdNotError|secondNotHeader> <registered>`
            (RegisterMethods on an empty server: how many methods are registered afterwards)
+  `hdrs <k> <name s-token>*k` -> `ok`   (the methods whose handler returns `(result, http.Header, *Error)`; the harness'
+        handlers return `X-Verif-Method: <name>`, `X-Verif-Argc: <number of arguments>`, and `Content-Type: text/plain`
+        when the method is called `ctype`)
+  `inx <acceptsGzip 0|1> <leadWs> <firstIsBracket> (x | v <tokens>)`
+        -> `<listener calls: n<hex method> (OnNewRequest) h<hex> (OnRequestHandled) f<hex> (OnRequestFailed), or ->
+            | <header of HandleReader: <hex key>:<hex value>,… or -> | <headers HTTP.ServeHTTP sets, same form>` or `dk`
+  `logobj (x | v <tokens>)` -> members of the object `Request.MarshalLogObject` writes for this (single) request
+        value (`jsonrpc method [id] [params]`), `none` when it does not decode
   `f64 <number literal>` -> what json.Marshal writes for the float64 it parses to, or `err`
   `defaults` -> `<peekLimit n|-> <nullForNilResult 0|1> <silentNotificationErrors 0|1>` of `junoCfg`
   `felt <s-token>` -> `none` | `<value hex> <bitLen> <maxbits64 0|1> <maxbits128 0|1> <version03 0|1>`
@@ -49,6 +58,7 @@ structure St where
   tbl : Table := []
   beh : List (String × Behaviour) := []
   nullNotGiven : Bool := true
+  hdrs : List String := []
 
 def strOfTok (cs : List Char) : Option String :=
   match hexToBytesAux cs with
@@ -138,6 +148,8 @@ def behaviour? : String → Option Behaviour
   | "echo" => some .echo | "fail" => some .fail | "internal" => some .internal
   | "nilres" => some .nilres | "typednil" => some .typednil | "both" => some .both
   | "waitctx" => some .waitctx | "unmarshalable" => some .unmarshalable | "panic" => some .panic
+  | "zeroint" => some .zeroint | "emptystr" => some .emptystr | "falseres" => some .falseres
+  | "failzero" => some .failzero
   | _ => none
 
 def nameTok? (t : String) : Option String :=
@@ -255,8 +267,53 @@ partial def parseDecls : Nat → List String → Option (List MethodDecl × List
             sig := { isFunc := f, ins, outs } } :: ds, r)
   | _, _ => none
 
+def hexOfStr (s : String) : String := if s.isEmpty then "-" else bytesToHex s.toUTF8.toList
+
+def renderHeader (h : Header) : String :=
+  if h.isEmpty then "-" else
+  " ".intercalate (h.map (fun kv => hexOfStr kv.1 ++ ":" ++ ",".intercalate (kv.2.map hexOfStr)))
+
+def renderEvents (es : List Event) : String :=
+  if es.isEmpty then "-" else
+  " ".intercalate (es.map (fun e => match e with
+    | .newRequest m => "n" ++ hexOfStr m | .handled m => "h" ++ hexOfStr m | .failed m => "f" ++ hexOfStr m))
+
+/-- the header the harness' 3-value handlers return -/
+def hdrFn (st : St) (name : String) (args : List Json) : Header :=
+  if st.hdrs.contains name then
+    [("X-Verif-Method", [name]), ("X-Verif-Argc", [toString args.length])] ++
+      (if name == "ctype" then [("Content-Type", ["text/plain"])] else [])
+  else []
+
+partial def parseNames : Nat → List String → Option (List String × List String)
+  | 0, rest => some ([], rest)
+  | k + 1, n :: rest => do
+    let name ← nameTok? n
+    let (ns, r) ← parseNames k rest
+    pure (name :: ns, r)
+  | _, _ => none
+
 def step (st : St) (line : String) : St × String :=
   match words line with
+  | "hdrs" :: k :: rest =>
+    match (natOfChars k.toList).bind (fun k => parseNames k rest) with
+    | some (ns, []) => ({ st with hdrs := ns }, "ok")
+    | _ => (st, "bad-op")
+  | "inx" :: gz :: rest =>
+    match bool01? gz, parseInput rest with
+    | some gz, some (inp, []) =>
+      (st, both st fun env =>
+        let o := handleInputX st.cfg.batchDisabled env (hdrFn st) st.tbl inp
+        renderEvents o.events ++ " | " ++ renderHeader o.header ++ " | " ++ renderHeader (httpPostHeaders gz o))
+    | _, _ => (st, "bad-op")
+  | ["logobj", "x"] => (st, "none")
+  | "logobj" :: "v" :: toks =>
+    match parseJson toks with
+    | some (j, []) =>
+      (st, match decodeRequest j with
+        | none => "none"
+        | some r => " ".intercalate r.logMembers)
+    | _ => (st, "bad-op")
   | ["cfg", bd, pk, nn, sn, ie, li, ng] =>
     match bool01? bd, bool01? nn, bool01? sn, bool01? ie, bool01? li, bool01? ng with
     | some bd, some nn, some sn, some ie, some li, some ng =>
